@@ -60,6 +60,7 @@ type Ctx struct {
 	mu        sync.Mutex
 	res       Result
 	hashes    map[uint64]struct{}
+	judged    int64 // Distinct calls of the current case
 	sets      map[string]map[string]struct{}
 	marker    *os.File
 	sigCount  map[string]int
@@ -132,9 +133,18 @@ func (c *Ctx) Cases(sub string, n int, pinned bool, f func(i int, r *rng.R)) {
 		}
 		c.curSub, c.curCase = sub, i
 		c.mark(sub, i, nil)
-		f(i, rng.New(seed, c.Prop+"/"+sub, i))
 		c.mu.Lock()
-		c.res.Evaluations++
+		c.judged = 0
+		c.mu.Unlock()
+		f(i, rng.New(seed, c.Prop+"/"+sub, i))
+		// a case that describes several judged items (probe rounds of a history, lists of a program) counts
+		// each of them, so that the distinct count can never exceed the evaluations
+		c.mu.Lock()
+		if c.judged > 1 {
+			c.res.Evaluations += c.judged
+		} else {
+			c.res.Evaluations++
+		}
 		c.mu.Unlock()
 	}
 }
@@ -231,11 +241,13 @@ func (c *Ctx) Distinct(desc string) {
 	h := spec.Hash(desc)
 	c.mu.Lock()
 	c.hashes[h] = struct{}{}
+	c.judged++
 	c.mu.Unlock()
 }
 
 func (c *Ctx) DistinctHash(h uint64) {
 	c.mu.Lock()
+	c.judged++
 	c.hashes[h] = struct{}{}
 	c.mu.Unlock()
 }
